@@ -1043,7 +1043,7 @@ class Executor:
             if isinstance(a, (Str, VecV, AbsVec)):
                 return self.vec_len(a)
             if isinstance(a, Ref):
-                v = self_load = None
+                return self.vec_len(self.load(st, a.addr, a.path))
         raise Abort('unmodelled', 'unop %s on %r' % (op, a))
 
     def float_to_int(self, x, w, signed):
@@ -1118,7 +1118,7 @@ class Executor:
     # -------------------------------------------------------------------------------------------
     # havoc (assume-guarantee for callees that reach the heap)
     # -------------------------------------------------------------------------------------------
-    def havoc(self, pattern, framed=None, ret=None, label=None, effect=None):
+    def havoc(self, pattern, framed=None, ret=None, label=None, effect=None, only_if=None):
         """calls matching pattern return a fresh value of their return type, are recorded as an event, and may
         rewrite every field of lazily materialised `&mut` struct arguments except the framed ones.
         framed: {struct type name: set of field indices that the callee is assumed not to touch}
@@ -1127,6 +1127,8 @@ class Executor:
 
         def h(ex, st, call):
             name = label or call.norm
+            if only_if is not None and not only_if(ex, st, call):
+                return None
             ex.havoc_used.add(name)
             st.event('call', name, tuple(call.args))
             for a in call.args:
